@@ -44,6 +44,17 @@ class FrozenBoom(Boom):
         raise AttributeError(f"cannot assign to field {name!r}")
 
 
+class TypeBoom(Boom, TypeError):
+    """A TypeError raised INSIDE a node body whose message talks about arguments (a helper called with the wrong arity)."""
+
+
+def _lib_boom(text):
+    """A node body may itself raise one of the LIBRARY's exception types (it builds a graph, runs a sub-graph, ...):
+    that is still the node's own exception."""
+    from hypergraph.graph.validation import GraphConfigError
+    return GraphConfigError(text)
+
+
 class Runtime:
     """Shared by all bodies of one built program: call log, invocation counters,
     scripted decisions / failures, optional controller for async bodies."""
@@ -79,9 +90,11 @@ class Runtime:
     def _maybe_fail(self, path, idx, args=()):
         nd = self.nodes[path]
         if idx in nd["fail_at"] or any(IR.canon(v) in nd["fail_args"] for _, v in args):
-            # a quarter of the failures carry NO message (str(exc) == ""), like a bare KeyError() or a failed assert
-            k = nd.get("exc_kind", (len(path) + idx) % 4) if self.silent_failures else 2
+            # a sixth of the failures carry NO message (str(exc) == ""), like a bare KeyError() or a failed assert
+            k = nd.get("exc_kind", (len(path) + idx) % 6) if self.silent_failures else 2
             exc = (Boom() if k == 0 else FalsyBoom(f"boom at {path}#{idx}") if k == 1 else FrozenBoom(f"boom at {path}#{idx}") if k == 3
+                   else TypeBoom(f"helper() takes 1 positional argument but 2 were given (boom at {path}#{idx})") if k == 4
+                   else _lib_boom(f"boom at {path}#{idx}") if k == 5
                    else Boom(f"boom at {path}#{idx}"))
             self.raised.append((path, idx, exc))
             raise exc
@@ -148,6 +161,11 @@ class Runtime:
 
     async def ayield(self):
         await asyncio.sleep(0)
+
+    def future(self, value):
+        fut = asyncio.get_running_loop().create_future()
+        fut.set_result(value)
+        return fut
 
     def handler(self, path, args):
         idx, _ = self._enter(path, args)
@@ -216,6 +234,9 @@ def _mk_callable(rt, path, nd, entry):
         src = f"def {fname}({params}):\n    r = RT.call({path!r}, {argt})\n    yield r + '#0'\n    yield r + '#1'\n"
     elif is_async and nd.get("coro"):      # a plain function that returns a coroutine
         src = f"def {fname}({params}):\n    return RT.acall({path!r}, {argt})\n"
+    elif entry == "handler" and nd.get("handler_kind") == "future":
+        # a SYNCHRONOUS handler that hands back an awaitable which is not a coroutine (a Future, e.g. from run_in_executor)
+        src = f"def {fname}({params}):\n    return RT.future(RT.handler({path!r}, {argt}))\n"
     elif is_async and entry == "handler":
         src = f"async def {fname}({params}):\n    await RT.ayield()\n    return RT.handler({path!r}, {argt})\n"
     elif is_async:
@@ -428,7 +449,7 @@ def provided_dict(job):
 
 
 def run_job(job, *, runner=None, event_processors=None, max_concurrency=None, cache=None, on_missing=None,
-            error_handling="continue"):
+            error_handling="continue", warnings_as_errors=False):
     """Execute job = {id, prog, provided, mode, select} on the real code.
     Returns the observable record in the shape of Predict!Observe, plus the raw pieces."""
     from hypergraph.exceptions import InfiniteLoopError
@@ -446,7 +467,7 @@ def run_job(job, *, runner=None, event_processors=None, max_concurrency=None, ca
         kwargs["event_processors"] = event_processors
     values = provided_dict(job)
     with warnings.catch_warnings(record=True) as wlist:
-        warnings.simplefilter("always")
+        warnings.simplefilter("error" if warnings_as_errors else "always")      # "error": the interpreter's -W error policy
         try:
             if job["mode"] == "sync":
                 r = (runner or SyncRunner(cache=cache)).run(g, values, **kwargs)
